@@ -10,7 +10,7 @@ TA = {1: dict(i1=0, hasQ=0, prim=0, hasM=0), 2: dict(i1=1, hasQ=0, prim=0, hasM=
       15: dict(i1=1, hasQ=0, prim=0, hasM=0, zero=1), 16: dict(i1=1, hasQ=0, prim=0, hasM=1, zero=1)}
 PROV_TYPES = [1, 2, 3, 4, 5, 6, 7, 8, 12, 13, 14, 15, 16]
 HOLDER_TYPES = [9, 10, 11]
-KINDS = ["iface", "siface", "ptr", "sptr", "any"]
+KINDS = ["iface", "siface", "ptr", "sptr", "any", "aiface", "aptr"]
 QUALS = [(False, []), (True, ["g1"]), (True, ["g1", "g2"]), (True, ["g9"])]
 
 
@@ -49,6 +49,8 @@ def rand_point(rng, nprov, focus):
         bn = rng.choice([-1] + list(range(1, nprov + 1)))
         hq, q = rng.choice([(False, []), (False, []), (True, ["g1"])])
         return point(kind, "wire", bn, hq, q, rng.random() < 0.6)
+    if focus in ("C09", "C06") and rng.random() < 0.12:       # array-typed points: never served, must fail cleanly / stay as they are
+        return point(rng.choice(["aiface", "aptr"]), rng.choice(["wire", "wire", "func"]), 0, False, [], rng.random() < 0.5)
     if focus == "C09":       # unsatisfiable points of every kind, required and optional
         r0 = rng.random()
         if r0 < 0.3:
@@ -89,7 +91,8 @@ def rand_scenario(rng, focus, sid, max_prov=5, max_pts=3):
     pts = [rand_point(rng, len(provs), focus) for _ in range(npts)]
     order = list(range(1, len(provs) + 1)); rng.shuffle(order)
     reg = list(range(1, len(provs) + 1)); rng.shuffle(reg)
-    return dict(id=sid, prov=provs, pts=pts, order=order, reg=reg)
+    # preset: every point's field holds a sentinel before the start (what receives nothing must stay untouched)
+    return dict(id=sid, prov=provs, pts=pts, order=order, reg=reg, preset=rng.random() < 0.4)
 
 
 def with_orders(rng, sc, k):
